@@ -97,11 +97,11 @@ PINNED_PATTERNS = {
 
 # ------------------------------------------------------------------ tree helpers
 def pack(s):
-    """str -> packed tree: 7 bytes per int, little endian, leading 1 as end marker"""
+    """str -> packed tree: 5 bytes per int, little endian, leading 1 as end marker"""
     b = s.encode("latin-1")
     out = []
-    for i in range(0, len(b), 7):
-        ch = b[i : i + 7]
+    for i in range(0, len(b), 5):
+        ch = b[i : i + 5]
         out.append(int.from_bytes(ch + b"\x01", "little"))
     return out
 
@@ -113,6 +113,17 @@ def unpack(t):
             out.append(z % 256)
             z //= 256
     return out.decode("latin-1")
+
+
+HASH_P = (1 << 61) - 1
+
+
+def text_obs(s):
+    """statement text as compared with the model: polynomial hash and length (see ParamsRun.of_text)"""
+    h = 0
+    for ch in s.encode("latin-1"):
+        h = (h * 257 + ch + 1) % HASH_P
+    return [h, len(s)]
 
 
 def enc_pval(v):
@@ -671,6 +682,7 @@ def nontrivial(c):
 _ENG = {}
 _CAP = []
 _DB = None
+_TEXTS = {}  # statement text per style of the LAST impl() call (the observation carries only its hash)
 
 
 def impl_setup():
@@ -716,6 +728,7 @@ def impl(c):
         impl_setup()
     R = c["recipe"]
     obs = []
+    _TEXTS.clear()
     for ps in STYLES:
         stmt, params = build(R)
         del _CAP[:]
@@ -727,7 +740,8 @@ def impl(c):
                 obs.append([8, len(_CAP)])
                 continue
             text, p = _CAP[0]
-            obs.append([0, pack(text), _enc_params(p)])
+            _TEXTS[ps] = text
+            obs.append([0, text_obs(text), _enc_params(p)])
         except AssertionError:
             obs.append([1])
         except sa.exc.StatementError as e:
@@ -833,7 +847,9 @@ def oracle(c, obs):
     for ps, o in zip(STYLES, obs):
         if o[0] != 0:
             return "%s: no statement reaches the driver (error code %s)" % (ps, o[0])
-        text = unpack(o[1])
+        text = _TEXTS.get(ps)
+        if text is None or text_obs(text) != o[1]:
+            return None  # oracle called without the preceding impl() run of this case
         try:
             got = _inline(ps, text, o[2])
         except ValueError as e:
